@@ -16,6 +16,7 @@ import ShapeVerif.Model.Parser
 import ShapeVerif.Model.ParseCst
 import ShapeVerif.Model.Gen
 import ShapeVerif.Model.Derive
+import ShapeVerif.Model.Build
 import ShapeVerif.Ref.Sem
 import ShapeVerif.Ref.Rfc8259
 import ShapeVerif.Ref.Witness
@@ -176,8 +177,68 @@ def compileModel (hs : List String) : String :=
     | .err _ => "err"
     | .panic => "panic"
 
+/-- one step `namehex:src,src,..` of a build history; a source `!` is a path that does not exist.
+Returns the request, the files to create for it, and whether every key of every text is ASCII. -/
+def parseBuildStep (i : Nat) (st : String) : Option (BuildOp × List (String × String)) :=
+  match st.splitOn ":" with
+  | [n, srcs] =>
+    match textOfHex n with
+    | none => none
+    | some name =>
+      let toks := if srcs.isEmpty then [] else srcs.splitOn ","
+      let rec go (j : Nat) : List String → Option (List String × List (String × String))
+        | [] => some ([], [])
+        | "!" :: rest =>
+          match go (j + 1) rest with
+          | some (ps, fs) => some (("/src/missing_" ++ toString i ++ "_" ++ toString j) :: ps, fs)
+          | none => none
+        | h :: rest =>
+          match textOfHex h, go (j + 1) rest with
+          | some t, some (ps, fs) =>
+            let p := "/src/s" ++ toString i ++ "_" ++ toString j ++ ".json"
+            some (p :: ps, (p, t) :: fs)
+          | _, _ => none
+      match go 0 toks with
+      | some (ps, files) => some (⟨name, ps⟩, files)
+      | none => none
+  | _ => none
+
+def showBuildOut : BuildOut → String
+  | .ok _ => "ok" | .err => "err" | .panic => "panic"
+
+/-- model of a history of `compile_json` requests into one directory (Model/Build.lean) -/
+def buildHistoryModel (steps : List String) : String :=
+  let rec parseAll (i : Nat) : List String → Option (List (BuildOp × List (String × String)))
+    | [] => some []
+    | st :: rest =>
+      match parseBuildStep i st, parseAll (i + 1) rest with
+      | some a, some r => some (a :: r)
+      | _, _ => none
+  match parseAll 0 steps with
+  | none => "bad-op"
+  | some ps =>
+    let env : BuildEnv := ⟨some "/out", "/cwd"⟩
+    let fs0 : FS := ps.foldl (fun acc p => p.2 ++ acc) []
+    let ops := ps.map (·.1)
+    let r := runBuild env fs0 ops
+    -- only ASCII member names are inside the generator model
+    let modelled := ps.all fun p => p.2.all fun f =>
+      match fromStr f.2.toList with
+      | .ok s => asciiKeys s
+      | _ => true
+    if !modelled then "unmodelled" else
+    let names := (ops.map (·.name)).eraseDups
+    let files := names.filterMap fun n =>
+      match r.1.read (targetPath env n) with
+      | some c => some (targetFile n, c)
+      | none => none
+    let sorted := files.toArray.qsort (fun a b => a.1 < b.1) |>.toList
+    "steps" ++ r.2.foldl (fun acc o => acc ++ " " ++ showBuildOut o) "" ++ " |" ++
+      sorted.foldl (fun acc f => acc ++ " " ++ hexOfString f.1 ++ "=" ++ hexOfString f.2) ""
+
 def step (line : String) : String :=
   match line.splitOn "\t" with
+  | "p_c16h" :: _ :: steps => buildHistoryModel steps
   | ["subset", a, b] => withShape a fun a => withShape b fun b => showBool (isSubset a b)
   | ["similar", a, b] => withShape a fun a => withShape b fun b =>
       match Shape.similar a b with
